@@ -212,6 +212,13 @@ func scenFED(s *sched.Sim, cfg Config, res *Result) {
 		fo.resp = env.post(fo.client, []clientReq{{Query: fo.op.Text, Variables: fo.op.Vars, OperationName: fo.op.OpName}}, false)
 		doneCount.Add(1)
 	}
+	if overlap && gc.CacheTTL != "" && gc.CacheTTL != "1h" && s.T.Bool(1, 2) {
+		// time may pass while the clients' requests overlap: a cached plan can expire, and be evicted
+		// by another request, between being fetched and being executed
+		ttl, _ := time.ParseDuration(gc.CacheTTL)
+		addTick(s, 1+s.T.Choose(2), ttl+time.Nanosecond, nil)
+		res.Probe("fed.clock-advances-while-requests-overlap")
+	}
 	if overlap {
 		for _, fo := range ops {
 			fo := fo
